@@ -312,6 +312,12 @@ impl HandshakeState {
         if byte_index + payload.len() + TAGLEN > message.len() {
             return Err(Error::Input);
         }
+        // Refuse an over-long message before the payload is encrypted, so that a retry with a
+        // shorter payload does not encrypt different data under the same key and nonce.
+        let tag_len = if self.symmetricstate.has_key() { TAGLEN } else { 0 };
+        if byte_index + payload.len() + tag_len > MAXMSGLEN {
+            return Err(Error::Input);
+        }
         byte_index +=
             self.symmetricstate.encrypt_and_mix_hash(payload, &mut message[byte_index..])?;
         if byte_index > MAXMSGLEN {
